@@ -3,6 +3,8 @@ package props
 import (
 	"fmt"
 
+	"github.com/RoaringBitmap/roaring"
+
 	ice "github.com/blugelabs/ice/v2"
 
 	"verif/harness/gen"
@@ -12,6 +14,50 @@ import (
 
 // C16 — collection statistics describe the documents actually in the segment.
 
+// c16StepWorld: document counts and token totals of a field on and around the steps at which the uvarints
+// holding the per-field statistics in the persisted field table grow by a byte (2^7, 2^14, 2^21, 2^28):
+// 127..129 or 16383..16385 documents carrying the field, token total within +-2 of a step. Built, loaded
+// (memory and file) and re-merged.
+func c16StepWorld(c *runner.Ctx) (*gen.World, error) {
+	r := c.R
+	n := []int{127, 128, 129, 16383, 16384, 16385}[r.Intn(6)]
+	total := []int{1 << 14, 1 << 21, 1 << 28}[r.Intn(3)] - 2 + r.Intn(5)
+	if total < n {
+		total = 1<<21 - 2 + r.Intn(5)
+	}
+	docs := make([]*model.MDoc, n)
+	per, rest := total/n, total%n
+	for i := range docs {
+		f := per
+		if i == n-1 {
+			f += rest
+		}
+		docs[i] = &model.MDoc{Fields: []*model.MField{
+			{N: "_id", Terms: []*model.MTerm{{T: []byte(fmt.Sprintf("v%d-%d", c.Idx, i)), F: 1}}},
+			{N: "s", Terms: []*model.MTerm{{T: []byte("x"), F: f}}},
+		}}
+	}
+	w := &gen.World{}
+	b, err := gen.BuildSeg(docs, 1025)
+	if err != nil {
+		return w, err
+	}
+	w.Segs = append(w.Segs, b)
+	for _, file := range []bool{false, true} {
+		l, err := b.Reload(c.TmpDir, file)
+		if err != nil {
+			return w, err
+		}
+		w.Segs = append(w.Segs, l)
+	}
+	m, _, err := gen.MergeSegs([]*gen.Seg{b}, []*roaring.Bitmap{nil}, 1025)
+	if err != nil {
+		return w, err
+	}
+	w.Segs = append(w.Segs, m)
+	return w, nil
+}
+
 func c16Run(c *runner.Ctx) {
 	var w *gen.World
 	var err error
@@ -19,7 +65,10 @@ func c16Run(c *runner.Ctx) {
 	if c.Idx%2 == 1 { // hostile history: aborted and cancelled merges precede the merges whose statistics are checked
 		abortedMergeHistory(c)
 	}
-	if c.Idx%200 == 0 {
+	if c.Idx%100 == 7 {
+		shape = "varint-steps"
+		w, err = c16StepWorld(c)
+	} else if c.Idx%200 == 0 {
 		shape = "jumbo"
 		w, err = gen.GenWorld(c.R, c.TmpDir, fmt.Sprintf("w%d", c.Idx), gen.WorldOpts{Jumbo: true})
 	} else {
